@@ -740,6 +740,11 @@ def _values(mod, t, cfg, depth=0, max_len=12):
             cnt = _len_strategy(rt.size, 0, False)
         else:
             cnt = _len_strategy(rt.size, 4 if depth else 6, False)
+        # nested collections multiply: the outermost may be as long as its constraint allows (16K/64K fragmentation),
+        # deeper ones stay short unless their lower bound forces more
+        lb_ = rt.size.lb() if rt.size is not None and rt.size.lb() is not None else 0
+        cap_ = 70000 if depth == 0 else (300 if depth == 1 else 24)
+        cnt = cnt.map(lambda n, lb_=lb_, cap_=cap_: n if n <= max(cap_, lb_) else lb_)
         ev = values(mod, rt.elem, cfg, depth + 1, max_len)
         return cnt.flatmap(lambda n: st.lists(ev, min_size=n, max_size=n) if n <= 16
                            else st.lists(ev, min_size=1, max_size=4).map(lambda l: (l * (n // len(l) + 1))[:n]))
